@@ -50,3 +50,11 @@ Definition f_trunc (b : Z) : Z :=
 (* exact comparison of a non-NaN float with an integer *)
 Definition f_cmp_int (r : Z) (z : Z) : comparison :=
   if is_inf r then (if fsign r then Lt else Gt) else dy_cmp (fval r) (z, 0).
+
+(* Go's comparison operators on float64 (IEEE-754: every comparison with a NaN is false, except !=) *)
+Definition go_flt (a b : Z) : bool := match fcmp a b with Some Lt => true | _ => false end.
+Definition go_fgt (a b : Z) : bool := match fcmp a b with Some Gt => true | _ => false end.
+Definition go_fle (a b : Z) : bool := match fcmp a b with Some Lt | Some Eq => true | _ => false end.
+Definition go_fge (a b : Z) : bool := match fcmp a b with Some Gt | Some Eq => true | _ => false end.
+Definition go_feq (a b : Z) : bool := match fcmp a b with Some Eq => true | _ => false end.
+Definition go_fne (a b : Z) : bool := negb (go_feq a b).
